@@ -855,6 +855,7 @@ fn corpus(p: Prop) -> Vec<(SCase, LenStyle)> {
         query_wf: None,
         svc: None,
         term_via_builder: false,
+        svc_unknown_weight: false,
     };
     let mut v = vec![];
     match p {
@@ -952,6 +953,7 @@ pub fn stale_link_witness(turn_restriction: bool) -> SCase {
         query_wf: None,
         svc: None,
         term_via_builder: false,
+        svc_unknown_weight: false,
     }
 }
 
@@ -1004,10 +1006,24 @@ pub fn run(ctx: &mut Ctx, p: Prop) -> &'static str {
         if c.edge_oriented {
             c.reverse = false; // the application never runs an edge-oriented search in reverse
         }
+        // the one configuration the generator makes that the application must refuse
+        let expect_refusal = matches!(c.svc, Some((_, _, _, false))) && c.svc_unknown_weight;
         let b = match build(&c) {
-            Ok(b) => b,
+            Ok(b) => {
+                if expect_refusal {
+                    ctx.emit(idx, "build".into(), "build accepted".into());
+                    ctx.fail(idx, "build/unknown-weight-accepted", "a weight for a feature the state model does not have was accepted although ignore_unknown_weights is off".into());
+                    continue;
+                }
+                b
+            }
             Err(e) => {
-                ctx.count(&format!("build_refused_{}", e.split(':').next().unwrap_or("")));
+                let kind = e.split(':').next().unwrap_or("").to_string();
+                ctx.count(&format!("build_refused_{}", kind));
+                if !(expect_refusal && kind == "cost") {
+                    ctx.emit(idx, "build".into(), format!("build refused {}", kind));
+                    ctx.fail(idx, "build/valid-configuration-refused", format!("a valid configuration was refused: {}", e));
+                }
                 continue;
             }
         };
